@@ -54,6 +54,8 @@ type env struct {
 	byVerd         map[string]int
 	byKind         map[string]int
 	sampled        map[string]bool
+	firstUse       map[string]bool // credential strings already presented to this node (calibrate)
+	stopFn         func()          // set for nodes not started through lib/node
 }
 
 type result struct {
@@ -269,6 +271,11 @@ func startEnv(t *testing.T, r *ev.Run, cfg string, kr *keyring, cap *audit.Captu
 		"NUTS_HTTP_INTERNAL_AUTH_AUTHORIZEDKEYSPATH": akf,
 		"NUTS_HTTP_INTERNAL_AUTH_AUDIENCE":           audience,
 	}})
+	return newEnv(t, r, cfg, n, kr, cap, true)
+}
+
+// newEnv wraps a running node into the monitoring environment (audit capture, state probe, credential generator).
+func newEnv(t *testing.T, r *ev.Run, cfg string, n *node.Node, kr *keyring, cap *audit.CapturedLog, auth bool) *env {
 	if !debug {
 		logrus.StandardLogger().SetOutput(io.Discard) // thousands of "Failed to parse JWT" lines otherwise
 	}
@@ -280,7 +287,7 @@ func startEnv(t *testing.T, r *ev.Run, cfg string, kr *keyring, cap *audit.Captu
 			registered++
 		}
 	}
-	if registered != len(kr.authorised()) {
+	if auth && registered != len(kr.authorised()) {
 		r.Fatalf("node registered %d authorised keys, the generated file holds %d acceptable ones", registered, len(kr.authorised()))
 	}
 	db := node.Engine[storage.Engine](n).GetSQLDatabase()
@@ -290,7 +297,8 @@ func startEnv(t *testing.T, r *ev.Run, cfg string, kr *keyring, cap *audit.Captu
 	}
 	e := &env{t: t, r: r, cfg: cfg, n: n, intHP: hostport(n.Internal), pubHP: hostport(n.Public), probe: probe, cap: cap, kr: kr,
 		gen: &credGen{kr: kr, rnd: r.Rand("cred-" + cfg)}, dispatch: map[string]bool{}, bypass: map[string]bool{},
-		byForm: map[string]int{}, byRoute: map[string]int{}, byVerd: map[string]int{}, byKind: map[string]int{}, sampled: map[string]bool{}}
+		byForm: map[string]int{}, byRoute: map[string]int{}, byVerd: map[string]int{}, byKind: map[string]int{}, sampled: map[string]bool{},
+		firstUse: map[string]bool{}}
 	e.refreshCreds()
 	if e.last, err = probe.snap(); err != nil {
 		r.Fatalf("state probe: %v", err)
@@ -324,7 +332,11 @@ func (e *env) finish() {
 	disp = uniq(disp)
 	e.r.Extra(pre+"target_forms_dispatched_with_conforming_token", disp)
 	e.r.Extra(pre+"sql_tables_watched", len(e.probe.tables))
-	e.n.Stop()
+	if e.stopFn != nil {
+		e.stopFn()
+	} else {
+		e.n.Stop()
+	}
 	if len(e.deferredBroken) > 0 && e.r.Violations() == 0 {
 		e.r.Fatalf("harness calibration (%s listeners): %s", e.cfg, strings.Join(e.deferredBroken[:min(3, len(e.deferredBroken))], "; "))
 	}
@@ -354,10 +366,13 @@ func TestCheck(t *testing.T) {
 		"duplicated/encoded slashes, backslashes, dot segments, percent-encoded letters, control/unicode, case, ;params, trailing dots, HTTP versions, Host variants, methods, pipelining) plus seeded variants; " +
 		"credentials: conforming tokens per authorised key/alg/kid, every single claim defect, unauthorised keys, hostile JOSE variants, Authorization header shapes, each labelled by construction with the reference predicate. " +
 		"Every form is sent with a conforming token, with no credential and with seeded failing credentials; every credential is sent on ordinary requests. " +
+		"Sequences: short-lived conforming tokens are presented repeatedly while valid, failing credentials derived from an accepted token (same jti / signed bytes / signature) follow, " +
+		"and every short-lived token is presented again after its exp (monotonic stopwatch, lifetime + 2 s). Listener configurations: besides different/same address, the node is booted with the internal " +
+		"address empty, blank, unset, on an ephemeral port or unusable (through environment, file and command line); the public listener of every node that comes up is probed. " +
 		"A case is non-trivial when the server answered; distinct by (config, listener, request line, Host, route, credential class).")
 	r.Require(r.Pick(600, 4000), r.Pick(400, 3000))
 	r.Assume("handler execution is inferred from the answer (not the auth middleware's 401, not the router's 404/405, not net/http's own rejection) and from side effects (SQL row counts of all tables, key files, AccessGranted audit entries)")
-	r.Assume("token instants keep >= 5 min distance from the node's clock; no verdict depends on elapsed time")
+	r.Assume("token instants of the request matrix keep >= 5 min distance from the node's clock; only the expiry sequences depend on elapsed time: a token is presented again when a monotonic stopwatch started before its exp was computed shows lifetime + 2 s (the wall clock is assumed not to be stepped back by 2 s meanwhile); a first presentation that came too late is inconclusive, never a violation")
 
 	kr := newKeyring()
 	cap := audit.CaptureAuditLogs(t)
@@ -367,8 +382,10 @@ func TestCheck(t *testing.T) {
 	publicPlain(e)
 	e.seed()
 	calibrate(e)
+	sq := seqBegin(e)
 	tokenMatrix(e)
 	formMatrix(e)
+	seqEnd(e, sq)
 	publicListener(e)
 	e.finish()
 
@@ -376,10 +393,15 @@ func TestCheck(t *testing.T) {
 	e = startEnv(t, r, "shared", kr, cap)
 	e.seed()
 	calibrate(e)
+	sq = seqBegin(e)
 	tokenMatrix(e)
 	formMatrix(e)
 	paramValues(e)
+	seqEnd(e, sq)
 	e.finish()
+
+	// ---------- the listener-configuration dimension: internal address empty / blank / unset / ephemeral / unusable ----------
+	listenerMatrix(t, r, kr, cap)
 }
 
 func origin(rt route) form {
@@ -394,6 +416,15 @@ func calibrate(e *env) {
 				continue
 			}
 			res := e.internal(rt, origin(rt), c)
+			ck := strings.Join(c.lines, "\n")
+			repeated := e.firstUse[ck]
+			e.firstUse[ck] = true
+			if repeated && res.granted != 1 {
+				// the same credential string was presented before: the property text does not demand an audit entry per granted
+				// request (only the first presentation calibrates "authentication ran"), so this is merely counted
+				e.r.Count("repeated_credential_admitted_without_audit_entry", 1)
+				continue
+			}
 			if res.granted != 1 {
 				// A conforming token that reaches the handler without an AccessGranted audit entry means no authentication ran at all
 				// for this request. That is either a harness problem or the very misbehaviour the matrix below exposes (requests
